@@ -1,5 +1,5 @@
 From Coq Require Import List String ZArith Bool Arith Ascii.
-From Naunet Require Import Lib.Sexp Lib.ListX Lib.PyStr Model.CExpr Model.RateGas Model.RateGrain Wire.WRate.
+From Naunet Require Import Lib.Sexp Lib.ListX Lib.PyStr Model.CExpr Model.RateGas Model.RateGrain Wire.WRate Proofs.ReplaceBridge.
 From NaunetGen Require Import Tables.
 Import ListNotations.
 Open Scope string_scope.
@@ -32,7 +32,8 @@ Definition handle_grain (cmd : string) (args : list sexp) : option sexp :=
                       let b := beautify s in
                       L [A "ok";
                          A (str (flatten_with (fun i => chars (nth i mags "?")) (fun i => chars (name_of R g eb1 i)) b));
-                         bs (no_bad_token b); bs (match parse b with Some _ => true | None => false end)]
+                         bs (no_bad_token b); bs (match parse b with Some _ => true | None => false end);
+                         bs (forallb (fun x => match x with C _ => true | M i => atom_ok (chars (nth i mags "?")) | N i => atom_ok (chars (name_of R g eb1 i)) end) s)]
                   end)
         | _, _, _, _, _ => Some (err "bad args")
         end
